@@ -54,7 +54,7 @@ def ids(ins):
     return (i["svc"], i["inst"] if i["inst"] != 0xFFFF else 9, i["major"] if i["major"] != 0xFF else 3)
 
 
-TIMINGS = {"INITIAL_DELAY_MIN": 0.0, "INITIAL_DELAY_MAX": 0.0, "REPETITIONS_MAX": 0, "CYCLIC_OFFER_DELAY": 1000, "SEND_COLLECTION_TIMEOUT": 0.005}
+TIMINGS = {"INITIAL_DELAY_MIN": 0.0, "INITIAL_DELAY_MAX": 0.0, "REPETITIONS_MAX": 0, "CYCLIC_OFFER_DELAY": 1000, "SEND_COLLECTION_TIMEOUT": 0.005, "SUBSCRIBE_REFRESH_INTERVAL": None}
 
 
 class B(Builder):
@@ -131,6 +131,7 @@ def sweep_plan(i):
 def random_plan(seed, idx):
     r = rng(seed, ID, idx)
     b = B(announce=r.choice([(0, 1), (0, 1, 2), (0,)]))
+    far = r.random() < 0.06  # this plan runs the clock past 0xFFFFFF s (needs a quiet configuration: no periodic offers)
     for _ in range(r.randint(5, 40)):
         b.random_time(r)
         k = r.random()
@@ -156,6 +157,8 @@ def random_plan(seed, idx):
                 i3 = ids(0)  # a second SD message in the same datagram
                 second = [["sub", i3[0], i3[1], i3[2], r.choice([1, 2]), r.choice([0, 1, 3, INF_TTL]), r.choice([0, 1]), [ep(p)]]]
             b.sub(p, ids(ins), eg, r.choice([1, 1, 2, 3, INF_TTL]), counter, ch, eps, extra, second=second)
+            if r.random() < 0.12:
+                b.ops[-1]["port"] = 40001  # a second SD endpoint on that peer's host (own session numbering)
         elif k < 0.55:
             b.sub(p, ids(ins), eg, 0, counter, ch, eps)
         elif k < 0.70:
@@ -164,8 +167,11 @@ def random_plan(seed, idx):
                 b.sub(p, ids(ins), eg, r.choice([1, 2, 3, INF_TTL]), counter, "u", eps)
             else:
                 b.find(p, r.choice("um"))
-        elif k < 0.76:
+        elif k < 0.755:
             b.call("reject", [ins, r.random() < 0.6])
+        elif k < 0.76:
+            if far:
+                b.advance(0x1000000)  # far past 0xFFFFFF seconds: infinite TTLs still never expire
         elif k < 0.82:
             b.call("stop_announce", [ins])
         elif k < 0.88:
@@ -179,7 +185,7 @@ def random_plan(seed, idx):
         else:
             b.call("conn_lost", r.choice([[], ["u"]]))
     # non-cyclic offering (the offer task finishes after the repetitions) is a legal configuration of the instance
-    return b.plan(seed, "random", {"sock_flip": r.choice([0, 0.5, 1.0]), "timings": {"SEND_COLLECTION_TIMEOUT": r.choice([0, 0.005, 0.05]), "CYCLIC_OFFER_DELAY": r.choice([1000, 1000, 0, 0.7])}})
+    return b.plan(seed, "random", {"sock_flip": r.choice([0, 0.5, 1.0]), "timings": {"SEND_COLLECTION_TIMEOUT": r.choice([0, 0.005, 0.05]), "CYCLIC_OFFER_DELAY": 0x2000000 if far else r.choice([1000, 1000, 0, 0.7])}})
 
 
 def gen(seed, idx, tier):
